@@ -4,6 +4,7 @@ import (
 	"context"
 	"encoding/json"
 	"fmt"
+	"reflect"
 	"sort"
 	"strings"
 	"time"
@@ -381,6 +382,7 @@ func (c12) Run(plan interface{}, schedSeed uint64, replay []simrt.Choice, lenien
 	}
 	var connErr, mainErr, connCloseErr string
 	var ch0Got []string
+	registered := -1
 	mainInvalid := 0
 	out := s.Run(func() {
 		conn, err := tds.NewConn(context.Background(), MkInfo(p.QueueSize, 5, false))
@@ -491,6 +493,10 @@ func (c12) Run(plan interface{}, schedSeed uint64, replay []simrt.Choice, lenien
 			break
 		}
 		dcancel()
+		// the connection's channel table: channel 0 and the logical channels that were set up and not closed -
+		// a channel whose NewChannel failed does not exist
+		simrt.Sleep(time.Millisecond)
+		registered = reflect.ValueOf(conn).Elem().FieldByName("tdsChannels").Len()
 		if err := conn.Close(); err != nil {
 			connCloseErr = err.Error()
 		}
@@ -537,6 +543,17 @@ func (c12) Run(plan interface{}, schedSeed uint64, replay []simrt.Choice, lenien
 		}
 		v.Sample = map[string]interface{}{"tasks": len(p.Tasks), "close_early": p.CloseEarly, "steps": out.Steps}
 		return v, out
+	}
+	if registered >= 0 {
+		want := 1
+		for ti, tr := range res {
+			if !tr.skipped && tr.newErr == "" && p.Tasks[ti].NoClose {
+				want++
+			}
+		}
+		if registered != want {
+			v.Violate("channel-table", "channel table does not match the open channels", "%d channels are registered on the connection, %d are open (channel 0 and the logical channels set up and not closed); a channel whose NewChannel failed must not stay registered", registered, want)
+		}
 	}
 	for _, d := range ch0Got {
 		v.Violate("misrouted", "package delivered to channel 0", "channel 0, to which the server sent nothing, delivered %s", short(d, 200))
@@ -587,8 +604,16 @@ func (c12) Run(plan interface{}, schedSeed uint64, replay []simrt.Choice, lenien
 		}
 	}
 	must := unknownSent + postCloseSent
-	if v.Class == "" && (totalInvalid < must || totalInvalid > must+trailingPackets) {
-		v.Violate("invalid-channel-report", "unknown-channel packets not reported exactly once", "%d packets for a channel that does not exist were injected (%d for a never existing id, %d after their channel's Close had returned; plus %d late packets that may or may not meet a closed channel), %d 'invalid channel' connection errors surfaced", must, unknownSent, postCloseSent, trailingPackets, totalInvalid)
+	// a NewChannel that failed (it consumed one of these reports) leaves no channel behind: the acknowledgement the
+	// server still sends for it is one more packet for a channel that does not exist
+	skippedTasks := 0
+	for _, tr := range res {
+		if tr.skipped {
+			skippedTasks++
+		}
+	}
+	if v.Class == "" && (totalInvalid < must || totalInvalid > must+trailingPackets+skippedTasks) {
+		v.Violate("invalid-channel-report", "unknown-channel packets not reported exactly once", "%d packets for a channel that does not exist were injected (%d for a never existing id, %d after their channel's Close had returned; plus %d late packets that may or may not meet a closed channel and %d acknowledgements for channels whose NewChannel had failed), %d 'invalid channel' connection errors surfaced", must, unknownSent, postCloseSent, trailingPackets, skippedTasks, totalInvalid)
 	}
 	_ = connCloseErr
 	_ = trailingSent
